@@ -36,6 +36,34 @@ def run(rep, prog, tier):
     r4(rep, prog)
     r5(rep, prog)
     r6(rep, prog)
+    r7(rep, prog)
+
+
+def r7(rep, prog):
+    """a page of results needs the best offset + limit hits of every segment"""
+    import re
+    R = "C06-R7"
+    rep.rule(R, "offset + limit per segment: TopDocs with an offset keeps, in every segment, the best `doc_range.end` (= offset + limit) hits, merges them, and only then skips `doc_range.start`. The two per-segment siblings of TopBySortKeyCollector — collect_segment (the fast path through collect_segment_top_k) and for_segment (used when TopDocs is driven by another collector: tuples, MultiCollector) — and merge_top_k must all size their TopNComputer / k with the `end` of the range, never with its length: a segment that keeps only `limit` hits loses documents that belong to the requested page")
+    n = 0
+    for fid, b in sorted(prog.bodies.items()):
+        if "tantivy::collector::sort_key_top_collector::" not in fid or "::tests::" in fid or b.kind in ("const", "static", "promoted"):
+            continue
+        for bi, t in b.calls():
+            f = t.get("f") or ""
+            if re.search(r"TopNComputer::<.*>::(new|new_with_comparator)$", f):
+                k = t["args"][0]
+            elif f.endswith("collect_segment_top_k") and len(t["args"]) > 1:
+                k = t["args"][1]
+            else:
+                continue
+            n += 1
+            l = op_local(k)
+            tr = trace_back(b, l) if l is not None else []
+            from_end = any(x[0] == "field" and x[2] == "end" for x in tr) and not any(x[0] == "call" for x in tr)
+            rep.check(from_end, R, "%s sizes its top-K with doc_range.end" % short(fid), "k <- Range::end (offset + limit)",
+                      "`%s` sizes the per-segment top-K with %s instead of the `end` of the requested range (offset + limit): with a non-zero offset each segment keeps too few hits, the merge then returns worse documents "
+                      "in place of better ones, or short pages — only when TopDocs is combined with another collector, which no offset test does" % (fid, [x for x in tr][:3]), site=site(b, bi))
+    rep.floor(R, "top-K capacity sites in sort_key_top_collector", n, 3)
 
 
 def r4(rep, prog):
